@@ -70,7 +70,10 @@ class SpreadsheetValidator:
         self._hed_validator = HedValidator(self._schema, def_dicts=def_dicts)
         if data.onsets is not None:
             self._onset_validator = OnsetValidator()
-            onset_mask = ~pd.isna(pd.to_numeric(onsets['onset'], errors='coerce'))
+            # One entry per row of df (same labels): True if the row has a time, i.e. is handled by the onset checks.
+            onset_mask = ~pd.isna(pd.to_numeric(data.onsets, errors='coerce'))
+            # Rows without a time take no part in the time-ordered checks.
+            onsets = onsets[~pd.isna(pd.to_numeric(onsets['onset'], errors='coerce'))]
         else:
             self._onset_validator = None
             onset_mask = None
@@ -114,7 +117,7 @@ class SpreadsheetValidator:
                 error_handler.pop_error_context()  # Row
                 continue
 
-            if not row_strings or (onset_mask is not None and onset_mask.iloc[row_number]):
+            if not row_strings or (onset_mask is not None and onset_mask.loc[row_number]):
                 error_handler.pop_error_context()  # Row
                 continue
 
